@@ -56,6 +56,7 @@ void COSdoReset(CO_SDO *srv, uint8_t num, CO_NODE *node)
     srvnum->Seg.TBit     = 0;
     srvnum->Seg.Num      = 0;
     srvnum->Seg.Size     = 0;
+    srvnum->Seg.Dir      = CO_SDO_SEG_NONE;
     srvnum->Blk.State    = BLK_IDLE;
 }
 
@@ -128,6 +129,16 @@ CO_ERR COSdoResponse(CO_SDO *srv)
         return (result);
     }
 
+    /* initiated block upload: wait for start of first block */
+    if (srv->Blk.State == BLK_UPINIT) {
+        if (cmd == 0xA3) {
+            result = COSdoUploadBlock(srv);
+            return (result);
+        }
+        srv->Blk.State = BLK_IDLE;
+        srv->Obj       = 0;
+    }
+
     /* active block transfer */
     if (srv->Blk.State == BLK_DOWNLOAD) {
         result = COSdoDownloadBlock(srv);
@@ -183,8 +194,6 @@ CO_ERR COSdoResponse(CO_SDO *srv)
         }
     } else if ((cmd & 0xE3) == 0xA0) {
         result = COSdoInitUploadBlock(srv);
-    } else if (cmd == 0xA3) {
-        result = COSdoUploadBlock(srv);
 
     /* invalid or unknown command */
     } else {
@@ -385,6 +394,7 @@ CO_ERR COSdoInitUploadSegmented(CO_SDO *srv, uint32_t size)
     srv->Seg.Size = size;
     srv->Seg.TBit = 0;
     srv->Seg.Num  = 0;
+    srv->Seg.Dir  = CO_SDO_SEG_UPLOAD;
 
     return (result);
 }
@@ -397,8 +407,10 @@ CO_ERR COSdoUploadSegmented(CO_SDO *srv)
     uint8_t  c_bit  = 0;
     uint8_t  i;
 
-    if (srv->Obj == 0) {
+    if ((srv->Obj     == 0                ) ||
+        (srv->Seg.Dir != CO_SDO_SEG_UPLOAD)) {
         COSdoAbort(srv, CO_SDO_ERR_CMD);
+        COSdoAbortReq(srv);
         return (CO_ERR_SDO_ABORT);
     }
 
@@ -487,6 +499,7 @@ CO_ERR COSdoInitDownloadSegmented(CO_SDO *srv)
         srv->Seg.Size = size;
         srv->Seg.TBit = 0;
         srv->Seg.Num  = 0;
+        srv->Seg.Dir  = CO_SDO_SEG_DOWNLOAD;
     }
     return (result);
 }
@@ -499,6 +512,13 @@ CO_ERR COSdoDownloadSegmented(CO_SDO *srv)
     uint8_t  n;
     uint8_t  cmd;
     uint8_t  bid;
+
+    if ((srv->Obj     == 0                  ) ||
+        (srv->Seg.Dir != CO_SDO_SEG_DOWNLOAD)) {
+        COSdoAbort(srv, CO_SDO_ERR_CMD);
+        COSdoAbortReq(srv);
+        return (CO_ERR_SDO_ABORT);
+    }
 
     cmd = CO_GET_BYTE(srv->Frm, 0);
     if ((cmd >> 4) != srv->Seg.TBit) {
@@ -764,6 +784,7 @@ CO_ERR COSdoInitUploadBlock(CO_SDO *srv)
     }
     CO_SET_BYTE(srv->Frm, cmd, 0);
     CO_SET_LONG(srv->Frm, size, 4);
+    srv->Blk.State = BLK_UPINIT;
     return (result);
 }
 
@@ -942,4 +963,5 @@ void COSdoAbortReq(CO_SDO *srv)
     srv->Seg.Num   =  0;
     srv->Seg.Size  =  0;
     srv->Seg.TBit  =  0;
+    srv->Seg.Dir   =  CO_SDO_SEG_NONE;
 }
